@@ -19,7 +19,7 @@ ASSUMPTIONS = [
     "for header names that differ only in case the oracle demands only that the highest-precedence value is among those sent",
     "httpx.AsyncClient is replaced by a subclass that injects httpx.MockTransport; no private attribute of the transport is touched",
 ]
-BOUND = {"quick": "820 plugin sequences x 3 x 2 x 2 x 2 = 19680 requests", "thorough": "7381 plugin sequences (length<=4) x 24"}
+BOUND = {"quick": "820 plugin sequences x 3 defaults x 3 per-request header sets x 5 caller-argument sets x 2 bearer settings x 3 requests per transport = 223830 requests", "thorough": "7381 plugin sequences (length<=4) x 24"}
 CHUNK = 4
 
 PLUGINS = ["bearer", "key-header", "key-authz", "key-query", "key-cookie", "hdr-extra", "hdr-case", "oauth", "oauth-refresh"]
